@@ -36,7 +36,7 @@ def tweak(rng, row, w, case):
 def case_kw(rng, row):
     kw = {'mpu': False, 'mmu': False, 'e': rng.choice((0, 0, 0, 1))}
     if row.name in ('RFE_A1', 'RFE_T1', 'RFE_T2', 'LDM_eret_A1', 'LDM_user_A1', 'STM_user_A1', 'SRS_A1', 'SRS_T1', 'SRS_T2') and rng.random() < 0.85:
-        kw['mode'] = rng.choice(('svc', 'irq', 'fiq', 'abt', 'und', 'mon', 'svc'))
+        kw['mode'] = rng.choice(('svc', 'irq', 'fiq', 'abt', 'und', 'svc'))
     return kw
 
 
